@@ -131,6 +131,73 @@ func ruleTypedNilGuard(c *Ctx) {
 			})
 			c.ob(rule, fn+":"+id.Name, call.Pos(), guarded,
 				"the value located by the JSON pointer goes to swag.DynamicJSONToStruct without a typed-nil test: on a typed root, a $ref to an absent optional member (e.g. #/definitions/x/items, #/parameters/p/items, .../not) panics with 'value method MarshalJSON called using nil pointer' instead of returning an error")
+			// every way of designating nothing is covered: the untyped nil (a JSON null, a nil interface member) and
+			// nil maps and slices of a typed document, not only nil pointers - those copy out as "null", which
+			// decodes into nothing: a zero value with a nil error
+			if guarded {
+				untyped, kinds := false, map[string]bool{}
+				scan := func(n ast.Node, subject types.Object) {
+					ast.Inspect(n, func(m ast.Node) bool {
+						switch x := m.(type) {
+						case *ast.BinaryExpr:
+							if x.Op == token.EQL || x.Op == token.NEQ {
+								for _, pr := range [][2]ast.Expr{{x.X, x.Y}, {x.Y, x.X}} {
+									if sid, ok := unparen(pr[0]).(*ast.Ident); ok && c.objOf(sid) == subject && isNilIdent(c, pr[1]) {
+										untyped = true
+									}
+								}
+							}
+						case *ast.SelectorExpr:
+							if pid, ok := x.X.(*ast.Ident); ok {
+								if pn, isPkg := c.objOf(pid).(*types.PkgName); isPkg && pn.Imported().Path() == "reflect" {
+									switch x.Sel.Name {
+									case "Ptr", "Pointer", "Map", "Slice", "Interface":
+										kinds[x.Sel.Name] = true
+									}
+								}
+							}
+						}
+						return true
+					})
+				}
+				ast.Inspect(fd.Body, func(m ast.Node) bool {
+					ifs, ok := m.(*ast.IfStmt)
+					if !ok || ifs.End() > call.Pos() || !blockAlwaysLeaves(ifs.Body) || !c.condTestsTypedNil(ifs, v, 0) {
+						return true
+					}
+					if ifs.Init != nil {
+						scan(ifs.Init, v)
+					}
+					scan(ifs.Cond, v)
+					// one level of package helper: its parameter stands for the value
+					ast.Inspect(ifs.Cond, func(k ast.Node) bool {
+						hc, isC := k.(*ast.CallExpr)
+						if !isC {
+							return true
+						}
+						if g, isF := c.callee(hc).(*types.Func); isF && g.Pkg() == c.Types {
+							if gfd := c.decl(g); gfd != nil && gfd.Body != nil {
+								for ai, a := range hc.Args {
+									if aid, ok := unparen(a).(*ast.Ident); ok && c.objOf(aid) == v {
+										scan(gfd.Body, c.paramObj(gfd, ai))
+									}
+								}
+							}
+						}
+						return true
+					})
+					return true
+				})
+				allKinds := len(kinds) == 0 || (kinds["Ptr"] || kinds["Pointer"]) && kinds["Map"] && kinds["Slice"]
+				why := ""
+				switch {
+				case !untyped:
+					why = "the guard tests for typed nil pointers only: a JSON null target (or a nil interface-typed member such as example) is copied out as null and decodes into nothing - the reference yields a zero value with a nil error instead of an error"
+				case !allKinds:
+					why = "the guard restricts its nil test to some reflect kinds and leaves out maps or slices: a $ref to an absent map or list member of a typed document (.../properties, .../required) yields a zero value with a nil error while the generic document reports an error"
+				}
+				c.ob(rule, fn+":"+id.Name+":covers-every-nil", call.Pos(), untyped && allKinds, why)
+			}
 			return true
 		})
 	}
